@@ -289,6 +289,82 @@ def _split_parallel(fn) -> int:
     return done
 
 
+def _pos(n):
+    return (getattr(n, "lineno", 0), getattr(n, "col_offset", 0))
+
+
+def _hoist_walrus(fn) -> int:
+    """`table[label := f(idx)] = node`  ->  `label = f(idx); table[label] = node`, and `a[k] = name = expr` -> `name = expr; a[k] = name`.
+    A walrus in a simple statement is hoisted only when it is evaluated unconditionally (not under and / or / a conditional
+    expression / a comprehension / a lambda), nothing that is evaluated before it calls anything or reads the name, and the name is
+    bound once in the statement."""
+    done = 0
+    for blk in _blocks(fn):
+        i = 0
+        while i < len(blk):
+            st = blk[i]
+            # chained assignment with one plain name among the targets
+            if isinstance(st, ast.Assign) and len(st.targets) > 1 and sum(isinstance(t, ast.Name) for t in st.targets) == 1 and not any(isinstance(t, (ast.Tuple, ast.List, ast.Starred)) for t in st.targets):
+                nm = next(t for t in st.targets if isinstance(t, ast.Name))
+                rest = [t for t in st.targets if t is not nm]
+                if not any(isinstance(x, ast.Name) and x.id == nm.id for t in rest for x in ast.walk(t)) and not any(isinstance(x, (ast.NamedExpr, ast.Yield, ast.Await)) for x in ast.walk(st)):
+                    first = ast.copy_location(ast.Assign(targets=[nm], value=st.value, lineno=st.lineno), st)
+                    more = [ast.copy_location(ast.Assign(targets=[t], value=ast.copy_location(ast.Name(id=nm.id, ctx=ast.Load()), nm), lineno=st.lineno), st) for t in rest]
+                    blk[i : i + 1] = [first] + more
+                    i += 1 + len(more)
+                    done += 1
+                    continue
+            if isinstance(st, (ast.Assign, ast.AugAssign, ast.Expr, ast.Return)) and any(isinstance(x, ast.NamedExpr) for x in ast.walk(st)):
+                parents = {}
+                for p_ in ast.walk(st):
+                    for c_ in ast.iter_child_nodes(p_):
+                        parents[id(c_)] = p_
+                ws = [x for x in ast.walk(st) if isinstance(x, ast.NamedExpr)]
+                w = min(ws, key=_pos)
+                ok = isinstance(w.target, ast.Name) and sum(1 for x in ws if isinstance(x.target, ast.Name) and x.target.id == w.target.id) == 1
+                # unconditional evaluation
+                cur = w
+                while ok and id(cur) in parents:
+                    par = parents[id(cur)]
+                    if isinstance(par, (ast.IfExp, ast.Lambda, ast.ListComp, ast.SetComp, ast.DictComp, ast.GeneratorExp)):
+                        ok = False
+                    if isinstance(par, ast.BoolOp) and par.values[0] is not cur:
+                        ok = False
+                    if isinstance(par, ast.Compare) and len(par.ops) > 1 and par.left is not cur and par.comparators[0] is not cur:
+                        ok = False
+                    cur = par
+                if ok:
+                    inside = {id(x) for x in ast.walk(w)}
+                    in_target = isinstance(st, (ast.Assign, ast.AugAssign)) and any(id(w) in {id(x) for x in ast.walk(t)} for t in (st.targets if isinstance(st, ast.Assign) else [st.target]))
+                    for x in ast.walk(st):
+                        if id(x) in inside or x is st:
+                            continue
+                        before = _pos(x) < _pos(w) or (in_target and isinstance(st, (ast.Assign, ast.AugAssign)) and id(x) in {id(y) for y in ast.walk(st.value)})
+                        if not before:
+                            continue
+                        encloses = id(w) in {id(y) for y in ast.walk(x)}
+                        if isinstance(x, ast.Name) and x.id == w.target.id:
+                            ok = False
+                        if isinstance(x, (ast.Call, ast.Yield, ast.Await)) and not encloses:
+                            ok = False
+                    if isinstance(st, ast.AugAssign):
+                        ok = ok and not in_target
+                if ok:
+                    first = ast.copy_location(ast.Assign(targets=[ast.copy_location(ast.Name(id=w.target.id, ctx=ast.Store()), w.target)], value=w.value, lineno=w.lineno), w)
+                    repl = ast.copy_location(ast.Name(id=w.target.id, ctx=ast.Load()), w)
+
+                    class _R(ast.NodeTransformer):
+                        def visit_NamedExpr(self, node):
+                            return repl if node is w else self.generic_visit(node)
+
+                    blk[i] = _R().visit(st)
+                    blk.insert(i, first)
+                    done += 1
+                    continue  # the same statement again: there may be another walrus
+            i += 1
+    return done
+
+
 def _lower_match(fn) -> int:
     """`match subject:` over literal / or / wildcard / capture / fixed-length sequence patterns -> the if / elif chain it
     abbreviates (the analyses work on if-chains; other pattern kinds are left alone)."""
@@ -775,6 +851,7 @@ def canonicalise(tree: ast.Module) -> ast.Module:
             if not _lower_match(fn):  # (nested match statements: inner ones appear after the outer one was lowered)
                 break
         _split_parallel(fn)
+        _hoist_walrus(fn)
         _fold_bound_aliases(fn)
         _lower_genexp_loops(fn)
         _lbyl(fn)
